@@ -44,7 +44,7 @@ func convertObjectToASTNode(obj object.Object) ast.Node {
 	switch obj := obj.(type) {
 	case object.Integer:
 		t := token.Intern(token.INT, strconv.FormatInt(obj.Value, 10))
-		r := ast.IntegerLiteral{Val: obj.Value}
+		r := &ast.IntegerLiteral{Val: obj.Value}
 		r.Token = t
 		return r
 	case object.Boolean:
@@ -54,7 +54,7 @@ func convertObjectToASTNode(obj object.Object) ast.Node {
 		} else {
 			t = token.FALSET
 		}
-		return ast.Boolean{Base: ast.Base{Token: t}, Val: obj.Value}
+		return &ast.Boolean{Base: ast.Base{Token: t}, Val: obj.Value}
 	case object.Quote:
 		return obj.Node
 	default:
